@@ -1,1 +1,2 @@
+pub mod populations;
 pub mod registry;
